@@ -6,16 +6,6 @@ import EduceModel.Spec.Eq
 namespace Educe
 open Gen.PartialEq
 
-theorem nodup_map_index {C : Type} (f : C → Ident) :
-    ∀ (cs : List C) (j₁ j₂ : Nat) (c₁ c₂ : C), (cs.map f).Nodup →
-      cs[j₁]? = some c₁ → cs[j₂]? = some c₂ → f c₁ = f c₂ → j₁ = j₂ := by
-  intro cs j₁ j₂ c₁ c₂ hnd h1 h2 hf
-  have a := fieldIndex_map_get f cs j₁ c₁ hnd h1
-  have b := fieldIndex_map_get f cs j₂ c₂ hnd h2
-  rw [hf] at a
-  rw [a] at b
-  exact Option.some.inj b
-
 /-- The struct body: statements refer to `self.i` / `other.i` of the whole value. -/
 theorem evalEqStmts_struct {V : Type} (ops : EqOps V) (a b : List V) :
     ∀ (cs : List EqField) (i : Nat), a.length = i + cs.length → b.length = i + cs.length →
@@ -48,27 +38,11 @@ theorem evalEqStmts_struct {V : Type} (ops : EqOps V) (a b : List V) :
           List.getElem?_eq_getElem hib, Option.map_some, Spec.fieldsEq, Spec.fieldEq, hm, ih']
         cases ops.ne ⟨0, i⟩ a[i] b[i] <;> simp [hig]
 
-/-- What the arm block needs from its environment: the two binders of every compared field
-    resolve to that field of the left and of the right operand. -/
-def EnvOK {V : Type} (E : Env V) (k : Nat) (bs bo : Nat → EqField → Option Ident)
-    (i : Nat) (cs : List EqField) (xs ys : List V) : Prop :=
-  ∀ j c x y, cs[j]? = some c → xs[j]? = some x → ys[j]? = some y → c.ignore = false →
-    ∃ s o, bs (i + j) c = some s ∧ bo (i + j) c = some o ∧
-      E.look s = some (⟨k, i + j⟩, x) ∧ E.look o = some (⟨k, i + j⟩, y)
-
-theorem EnvOK_tail {V : Type} {E : Env V} {k : Nat} {bs bo : Nat → EqField → Option Ident}
-    {i : Nat} {c : EqField} {cs : List EqField} {x y : V} {xs ys : List V}
-    (h : EnvOK E k bs bo i (c :: cs) (x :: xs) (y :: ys)) :
-    EnvOK E k bs bo (i + 1) cs xs ys := by
-  intro j c' x' y' hc hx hy hig
-  have := h (j + 1) c' x' y' (by simpa using hc) (by simpa using hx) (by simpa using hy) hig
-  rwa [show i + (j + 1) = i + 1 + j by omega] at this
-
 theorem evalEqStmts_arm {V : Type} (ops : EqOps V) (E : Env V) (k : Nat)
     (bs bo : Nat → EqField → Option Ident)
     (hign : ∀ i c, c.ignore = true → bs i c = none) :
     ∀ (cs : List EqField) (i : Nat) (xs ys : List V),
-      xs.length = cs.length → ys.length = cs.length → EnvOK E k bs bo i cs xs ys →
+      xs.length = cs.length → ys.length = cs.length → EnvOK E k EqField.ignore bs bo i cs xs ys →
       Sem.evalEqStmts ops E [] [] (armStmts bs bo i cs) = some (Spec.fieldsEq ops k i cs xs ys) := by
   intro cs
   induction cs with
@@ -97,31 +71,5 @@ theorem evalEqStmts_arm {V : Type} (ops : EqOps V) (E : Env V) (k : Nat)
         | none =>
           simp only [Sem.evalEqStmts, evalRef, ls, lo, Spec.fieldsEq, Spec.fieldEq, hm, ih', hig']
           cases ops.ne ⟨k, i⟩ x y <;> simp
-
-/-- The environment built by the two patterns satisfies `EnvOK`, given that the self/other binder
-    functions are injective over the field list and never produce a common name. -/
-theorem envOK_of_envOf {V : Type} (k : Nat) (bs bo : Nat → EqField → Option Ident)
-    (cs : List EqField) (xs ys : List V)
-    (hs_inj : ∀ j₁ j₂ c₁ c₂ x, cs[j₁]? = some c₁ → cs[j₂]? = some c₂ →
-        bs (0 + j₁) c₁ = some x → bs (0 + j₂) c₂ = some x → j₁ = j₂)
-    (ho_inj : ∀ j₁ j₂ c₁ c₂ x, cs[j₁]? = some c₁ → cs[j₂]? = some c₂ →
-        bo (0 + j₁) c₁ = some x → bo (0 + j₂) c₂ = some x → j₁ = j₂)
-    (hdisj : ∀ j₁ j₂ c₁ c₂ x, bs j₁ c₁ = some x → bo j₂ c₂ ≠ some x)
-    (hsome : ∀ j c, c.ignore = false → (bs j c).isSome ∧ (bo j c).isSome) :
-    EnvOK (envOf k bo 0 cs ys ++ envOf k bs 0 cs xs) k bs bo 0 cs xs ys := by
-  intro j c x y hc hx hy hig
-  obtain ⟨h1, h2⟩ := hsome (0 + j) c hig
-  obtain ⟨s, hs⟩ := Option.isSome_iff_exists.mp h1
-  obtain ⟨o, ho⟩ := Option.isSome_iff_exists.mp h2
-  refine ⟨s, o, hs, ho, ?_, ?_⟩
-  · rw [look_append]
-    have hnone : Env.look (envOf k bo 0 cs ys) s = none := by
-      apply look_envOf_none
-      intro j' c' _ hb
-      exact hdisj (0 + j) (0 + j') c c' s hs hb
-    rw [hnone]
-    exact look_envOf k bs cs xs 0 hs_inj j c x s hc hx hs
-  · rw [look_append]
-    rw [look_envOf k bo cs ys 0 ho_inj j c y o hc hy ho]
 
 end Educe
